@@ -318,6 +318,8 @@ def streams(ctx):
             key = "clicall %s %d %s %s %s %s" % (d["fn"], d["x"], d["a"], d["al"], d["ay"], d["az"]) if d["fn"] in FORMULA_FN else \
                   "clicall %s %d %s - - -" % (d["fn"], d["x"], d["a"])
             r = ref.get(key, "?")
+            if r in ("?", "HANG", "CRASH", "SKIPPED"):
+                continue        # the reference call itself was not answered (the harness died on an earlier op)
             rc, err, ok, desc = expected(d, r)
             L = [] if g.get("out", "-") == "-" else g.get("out", "").split("|")
             if g.get("rc") != rc or g.get("err") != err or not ok(L):
